@@ -14,7 +14,7 @@ def check(run):
                        "each case is one action of specs/checked/Checked.tla whose post-condition is the property (relation bits true of "
                        "exact vs stored, class bits, direction honoured, overflow classified, tightness for integer targets); distinct = "
                        "distinct (type, primitive, direction, result code) combinations observed")
-    types = ["int8", "uint8", "int16", "uint16", "mpz", "mpq"]
+    types = ["int8", "uint8", "int16", "uint16", "mpz", "mpq", "int32", "uint32", "int64", "uint64"]
     codes = set()
     for ty in types:
         t0 = time.time()
@@ -26,7 +26,11 @@ def check(run):
             # quick: every third first-operand row of the exhaustive 8-bit tables (thorough: all)
             lines = [l for i, l in enumerate(lines) if i % 3 == run.seed % 3 or '"a":[0,0,1]' in l or '"a":[0,-1,1]' in l]
         t1 = time.time()
-        bad, tot, failed = tracelib.validate_lines(run, os.path.join(SPEC, "Checked.tla"), os.path.join(SPEC, "Checked.cfg"), lines)
+        wide = ty in ("int32", "uint32", "int64", "uint64")
+        if q and wide:
+            lines = [l for i, l in enumerate(lines) if i % 2 == run.seed % 2]
+        spec = "CheckedWide" if wide else "Checked"
+        bad, tot, failed = tracelib.validate_lines(run, os.path.join(SPEC, spec + ".tla"), os.path.join(SPEC, spec + ".cfg"), lines)
         ncase = tot.get("cases", 0)
         run.cov["evaluations"] += ncase
         run.cov["traces_validated_against_impl"] += tot.get("lines", 0)
@@ -39,13 +43,18 @@ def check(run):
             ty, len(lines), ncase, t1 - t0, time.time() - t1, len(bad), tot.get("skipped", 0), len(failed)))
         if lines:
             j = json.loads(lines[len(lines) // 2])
-            run.sample({"type": ty, "op": j["op"], "dir": j["dir"], "a": j["a"], "y": j["ys"][len(j["ys"]) // 2], "code_and_stored": j["rs"][len(j["rs"]) // 2]})
+            run.sample({"type": ty, "op": j["op"], "dir": j["dir"], "a": j["a"], "y": j["ys"][len(j["ys"]) // 2], "code_and_stored": j["rs"][len(j["rs"]) // 2]}, cap=10)
         groups = collections.OrderedDict()
         for b in bad:
             j = json.loads(lines[b["line"]])
             i = b["i"] - 1
             rs = j["rs"][i]
             shape = "stored-infinity-pattern-with-normal-code" if rs[1] in (1, 2) and (rs[0] >> 4) & 3 == 0 else ""
+            if wide:
+                def big(p):
+                    return {0: p[1] * sum(x << (14 * k) for k, x in enumerate(p[2:7])), 1: "-inf", 2: "+inf", 3: "nan"}[p[0]]
+                groups.setdefault((ty, j["op"], j["dir"], b["why"], shape), []).append({"a": big(j["a"]), "z": big(j["z"]), "y": big(j["ys"][i]), "code": rs[0], "stored": big(rs[1:]), "cases_on_this_row": b["count"]})
+                continue
             key = (ty, j["op"], j["dir"], b["why"], shape)
             groups.setdefault(key, []).append({"a": j["a"], "z": j["z"], "y": j["ys"][i], "code_class_num_den": j["rs"][i], "cases_on_this_row": b["count"]})
         for (ty_, op, d, why, shape), wit in groups.items():
@@ -66,7 +75,7 @@ def bounded_config(run):
     exeg = core.build_harness("poly", ["poly.cc"], libg)
     PSPEC = os.path.join(core.SPECS, "poly")
     ops = polylib.OPS_MUT + ["is_empty", "contains", "maximize", "min_constraints", "min_generators", "relation_with_constraint", "is_disjoint_from", "affine_dimension"]
-    progs = tracelib.gen_histories(run, PSPEC, "PolyHist", polylib.hist_cfg(8, 2, 0, 2, ops), 600 if q else 6000, 18)
+    progs = tracelib.gen_histories(run, PSPEC, "PolyHist", polylib.hist_cfg(8, 2, 0, 2, ops, False), 600 if q else 6000, 18)
     ea = tracelib.execute(run, exeg, progs, polylib.flat, args=["20"])
     for variant in (["int8"] if q else ["int8", "int16", "int32"]):
         t0 = time.time()
